@@ -38,7 +38,12 @@ func drawDesc(t *rapid.T, label string) string {
 }
 
 func enumValueText(t *rapid.T, v uint64, label string) string {
-	switch rapid.IntRange(0, 3).Draw(t, label+"_syntax") {
+	switch rapid.IntRange(0, 4).Draw(t, label+"_syntax") {
+	case 4:
+		// decimal with leading zeros (the schema allows \d{1,10}; it is still base 10)
+		if v < 100000000 {
+			return fmt.Sprintf("%0*d", rapid.IntRange(2, 10).Draw(t, label+"_width"), v)
+		}
 	case 1:
 		return fmt.Sprintf("0x%x", v)
 	case 2:
